@@ -80,6 +80,28 @@ def lookers():
     return out
 
 
+def twin_verbs():
+    """Two sessions send the same verb, each on its own path; the first is held in its j-th backend call while the second runs."""
+    login = {1: [["connect", 1], ["send", 1, "USER u1"], ["send", 1, "PASS pw1"]], 2: [["connect", 2], ["send", 2, "USER u2"]],
+             3: [["connect", 3], ["send", 3, "USER anonymous"]]}
+    args = {"CWD": {1: "d", 2: "/h", 3: "/"}, "DELE": {1: "f", 2: "f", 3: "pub"}, "RMD": {1: "d/e", 2: "/h", 3: "/"}, "MKD": {1: "zz", 2: "zz", 3: "zz"},
+            "RNFR": {1: "f", 2: "f", 3: "pub"}, "MLST": {1: "d", 2: "f", 3: "pub"}, "RETR": {1: "f", 2: "f", 3: "pub"}, "STOR": {1: "n1", 2: "n2", 3: "n3"}}
+    out = []
+    for a, b in ((1, 2), (2, 1), (1, 3), (3, 1)):
+        for verb, ar in args.items():
+            for j in (1, 2, 3):
+                def cmd(s):
+                    if verb in ("RETR", "STOR"):
+                        return [["send", s, "EPSV"], ["dconnect", s], ["send", s, verb + " " + ar[s]]] + ([["dsend", s, [40 + s]]] if verb == "STOR" else []) + [["deof", s]]
+                    return [["send", s, verb + " " + ar[s]]]
+                ca, cb = cmd(a), cmd(b)
+                k = 2 if verb in ("RETR", "STOR") else 0
+                st = login[a] + login[b] + ca[:k] + [["gate", a, None, j], ca[k]] + cb + [["release", a]] + ca[k + 1:] + [["send", a, "PWD"], ["send", b, "PWD"],
+                     ["send", a, "MLST " + ar[a]], ["send", b, "MLST " + ar[b]]]
+                out.append(st)
+    return out
+
+
 def dev_cfg(pool):
     return gen.std_cfg(ns=3)
 
@@ -114,6 +136,8 @@ def run(tier, seed):
             diffs += 1
             chk.violation({"at": "solo-differential-replies", "session": s}, {"interleaved": a[0], "solo": b[0]},
                           {"cfg": cfg, "tree": gen.STD_TREE, "schedule": fam[i][1][2], "solo": fam[i][1][0][s]})
+    tv = twin_verbs()
+    corecheck.validate(chk, cfg, gen.STD_TREE, tv, label="twin-verbs")
     lk = lookers()
     corecheck.validate(chk, cfg, gen.STD_TREE, lk, label="lookers")
     if tier != "quick":
